@@ -1,6 +1,11 @@
-(** Token-level image of the printer model, with the computable premises of the round-trip theorem (Lemmas/PrattFull.v).
-    Definitions only: this file is part of the extracted executable model. *)
+(** Token-level image of the printer model, with the computable premises of the round-trip theorem (Lemmas/RoundTrip.v).
+    Definitions only: this file is part of the extracted executable model.
+    The printer writes an infix operand in parentheses exactly when it has to (Printer.mins): [minp t] is that parenthesisation
+    as a [ptree], [etoks t] its tokens, [need t] the nesting depth the parser consumes on them. The names ending in 0 are the
+    conservative parenthesisation of the printer before that fix (every operator of the facing spine is looked at, also those
+    already inside parentheses); Lemmas/PrattFull.v proves the round trip for it and provides the machinery reused since. *)
 From EE Require Import Chars OpTable Decimal Token Lexer Ast Parser Printer.
+From EE Require Export Ptree.
 Open Scope N_scope.
 
 Section Etoks.
@@ -33,17 +38,14 @@ Fixpoint wf (t : ast) : bool :=
   | AStmt _ | ANone => false
   end.
 
-Definition lbare (l : ast) (o : str) : bool := negb (is_ternary l || rspine_blocks tbl (lbp o) l).
-Definition rbare (r : ast) (o : str) : bool := negb (is_ternary r || lspine_blocks tbl (rbp o) r).
+Definition lbare0 (l : ast) (o : str) : bool := negb (is_ternary l || rspine_blocks tbl (lbp o) l).
+Definition rbare0 (r : ast) (o : str) : bool := negb (is_ternary r || lspine_blocks tbl (rbp o) r).
 
-Definition paren (ts : list token) : list token := TDelim DLParen :: ts ++ [TDelim DRParen].
-Definition ptoks (need : bool) (ts : list token) : list token := if need then paren ts else ts.
-Definition lit_tok (l : literal) : token := match l with LNum d => TNum d | LBool b => TBool b | LStr s => TStr s end.
 
-(* Printer.expr with tokens for characters *)
-Fixpoint etoks (e : ast) : list token :=
+(* the conservative printer with tokens for characters *)
+Fixpoint etoks0 (e : ast) : list token :=
   let binary (shown : list token) (op : str) (lhs rhs : ast) : list token :=
-    ptoks (negb (lbare lhs op)) (etoks lhs) ++ shown ++ ptoks (negb (rbare rhs op)) (etoks rhs) in
+    ptoks (negb (lbare0 lhs op)) (etoks0 lhs) ++ shown ++ ptoks (negb (rbare0 rhs op)) (etoks0 rhs) in
   match e with
   | ALit l => [lit_tok l]
   | ARef n => [TRef n]
@@ -52,24 +54,24 @@ Fixpoint etoks (e : ast) : list token :=
       (fix go (l : list ast) : list token :=
          match l with
          | [] => []
-         | x :: r => match r with [] => etoks x | _ => etoks x ++ TComma :: go r end
+         | x :: r => match r with [] => etoks0 x | _ => etoks0 x ++ TComma :: go r end
          end) args ++ [TDelim DRParen]
   | AUnary op rhs =>
       match rhs with
       | ABinary iop l r =>
           if str_eqb op s_not then binary [TOp s_not; TOp iop] iop l r
-          else TOp op :: ptoks true (etoks rhs)
-      | _ => TOp op :: ptoks (is_ternary rhs || is_infix_like rhs) (etoks rhs)
+          else TOp op :: ptoks true (etoks0 rhs)
+      | _ => TOp op :: ptoks (is_ternary rhs || is_infix_like rhs) (etoks0 rhs)
       end
   | ABinary op l r => binary [TOp op] op l r
-  | APostfix lhs op => ptoks (postfix_needs_paren lhs) (etoks lhs) ++ [TOp op]
-  | ATernary c a b => ptoks (is_ternary c) (etoks c) ++ TOp s_qmark :: etoks a ++ TOp s_colon :: etoks b
+  | APostfix lhs op => ptoks (postfix_needs_paren lhs) (etoks0 lhs) ++ [TOp op]
+  | ATernary c a b => ptoks (is_ternary c) (etoks0 c) ++ TOp s_qmark :: etoks0 a ++ TOp s_colon :: etoks0 b
   | AList es =>
       TDelim DLBrack ::
       (fix go (l : list ast) : list token :=
          match l with
          | [] => []
-         | x :: r => match r with [] => etoks x | _ => etoks x ++ TComma :: go r end
+         | x :: r => match r with [] => etoks0 x | _ => etoks0 x ++ TComma :: go r end
          end) es ++ [TDelim DRBrack]
   | AMap kvs =>
       TDelim DLBrace ::
@@ -78,46 +80,77 @@ Fixpoint etoks (e : ast) : list token :=
          | [] => []
          | (k, v) :: r =>
              match r with
-             | [] => etoks k ++ TOp s_colon :: etoks v
-             | _ => etoks k ++ TOp s_colon :: etoks v ++ TComma :: go r
+             | [] => etoks0 k ++ TOp s_colon :: etoks0 v
+             | _ => etoks0 k ++ TOp s_colon :: etoks0 v ++ TComma :: go r
              end
          end) kvs ++ [TDelim DRBrace]
   | AStmt _ | ANone => []
   end.
 
-(* number of loop iterations that build t from its first primary *)
-Fixpoint ldepth (t : ast) : N :=
-  match t with
-  | ABinary o l _ => (if lbare l o then ldepth l else 0) + 1
-  | AUnary n (ABinary o l _) => if str_eqb n s_not then (if lbare l o then ldepth l else 0) + 1 else 0
-  | _ => 0
-  end.
+(* the iterations of the parser's operator loop do not add to Parser.depth (they did before the fix "nesting limit counts
+   recursion, not loop iterations"; the term is kept, as zero, in the statements of Lemmas/PrattFull.v) *)
+Definition ldepth0 (t : ast) : N := 0.
 
-(* Parser.depth consumed on [etoks t] (parser.rs counts operands, parentheses, brackets, calls and loop iterations);
+(* Parser.depth consumed on [etoks0 t] (parser.rs counts operands, parentheses, brackets, calls and loop iterations);
    beyond MAX_DEPTH the parser answers Err(TooDeep), so the bound is a hypothesis of the theorem *)
-Fixpoint need (t : ast) : N :=
-  let bneed (o : str) (l r : ast) : N :=
-    N.max (if lbare l o then need l else need l + 1)
-          ((if lbare l o then ldepth l else 0) + 1 + (if rbare r o then need r else need r + 1)) in
+Fixpoint need0 (t : ast) : N :=
+  let bneed0 (o : str) (l r : ast) : N :=
+    N.max (if lbare0 l o then need0 l else need0 l + 1)
+          ((if lbare0 l o then ldepth0 l else 0) + 1 + (if rbare0 r o then need0 r else need0 r + 1)) in
   match t with
-  | ABinary o l r => bneed o l r
+  | ABinary o l r => bneed0 o l r
   | AUnary n e =>
       match e with
-      | ABinary o l r => if str_eqb n s_not then bneed o l r else 1 + (need e + 1)
-      | _ => 1 + (if is_ternary e || is_infix_like e then need e + 1 else need e)
+      | ABinary o l r => if str_eqb n s_not then bneed0 o l r else 1 + (need0 e + 1)
+      | _ => 1 + (if is_ternary e || is_infix_like e then need0 e + 1 else need0 e)
       end
-  | APostfix e _ => if postfix_needs_paren e then need e + 1 else need e
+  | APostfix e _ => if postfix_needs_paren e then need0 e + 1 else need0 e
   | ATernary c a b =>
-      N.max (if is_ternary c then need c + 1 else need c)
-            ((if is_ternary c then 0 else ldepth c) + 2 + N.max (need a) (need b))
-  | AFunc _ args => 1 + (fix go (l : list ast) : N := match l with [] => 0 | x :: r => N.max (need x) (go r) end) args
-  | AList es => 1 + (fix go (l : list ast) : N := match l with [] => 0 | x :: r => N.max (need x) (go r) end) es
+      N.max (if is_ternary c then need0 c + 1 else need0 c)
+            ((if is_ternary c then 0 else ldepth0 c) + 2 + N.max (need0 a) (need0 b))
+  | AFunc _ args => 1 + (fix go (l : list ast) : N := match l with [] => 0 | x :: r => N.max (need0 x) (go r) end) args
+  | AList es => 1 + (fix go (l : list ast) : N := match l with [] => 0 | x :: r => N.max (need0 x) (go r) end) es
   | AMap kvs => 1 + (fix go (l : list (ast * ast)) : N :=
-                       match l with [] => 0 | (k, v) :: r => N.max (N.max (need k) (need v)) (go r) end) kvs
+                       match l with [] => 0 | (k, v) :: r => N.max (N.max (need0 k) (need0 v)) (go r) end) kvs
   | _ => 1
   end.
 
+
+(* ---- the printer (exact parentheses) *)
+Definition lparen (l : ast) (o : str) : bool := left_paren (lbp o) l (mins tbl l).
+Definition rparen (r : ast) (o : str) : bool := right_paren (rbp o) r (mins tbl r).
+Definition lbare (l : ast) (o : str) : bool := negb (lparen l o).
+Definition rbare (r : ast) (o : str) : bool := negb (rparen r o).
+Definition wrap (b : bool) (p : ptree) : ptree := if b then PParen p else p.
+
+(* the printer's parenthesisation of t *)
+Fixpoint minp (t : ast) : ptree :=
+  let node (nt : bool) (o : str) (l r : ast) : ptree :=
+    PBin nt o (wrap (lparen l o) (minp l)) (wrap (rparen r o) (minp r)) in
+  match t with
+  | ALit l => PLit l
+  | ARef n => PRef n
+  | ABinary o l r => node false o l r
+  | AUnary n e =>
+      match e with
+      | ABinary o l r => if str_eqb n s_not then node true o l r else PUn n (PParen (minp e))
+      | _ => PUn n (wrap (is_ternary e || is_infix_like e) (minp e))
+      end
+  | APostfix e o => PPost (wrap (postfix_needs_paren e) (minp e)) o
+  | ATernary c a b => PTern (wrap (is_ternary c) (minp c)) (minp a) (minp b)
+  | AFunc n args => PFunc n ((fix go (l : list ast) : list ptree := match l with [] => [] | x :: r => minp x :: go r end) args)
+  | AList es => PList ((fix go (l : list ast) : list ptree := match l with [] => [] | x :: r => minp x :: go r end) es)
+  | AMap kvs => PMap ((fix go (l : list (ast * ast)) : list (ptree * ptree) :=
+                         match l with [] => [] | (k, v) :: r => (minp k, minp v) :: go r end) kvs)
+  | AStmt _ | ANone => PList []
+  end.
+
+(* Printer.expr with tokens for characters; the nesting depth the parser consumes on them *)
+Definition etoks (t : ast) : list token := toks (minp t).
+Definition need (t : ast) : N := pneed (minp t).
+
 Definition hgt (t : ast) : Prop := ast_height t <= MAX_DEPTH.
+Definition room0 (d : N) (t : ast) : Prop := d + need0 t <= MAX_DEPTH.
 Definition room (d : N) (t : ast) : Prop := d + need t <= MAX_DEPTH.
 
 End Etoks.
